@@ -368,7 +368,7 @@ Qed.
 
 Lemma seek_skip pre x q : seek (pre ++ x) (N.of_nat (length pre) + q) = seek x q.
 Proof.
-  unfold seek. replace (N.to_nat (N.of_nat (length pre) + q)) with (length pre + N.to_nat q)%nat by lia.
+  rewrite !seek_unfold. replace (N.to_nat (N.of_nat (length pre) + q)) with (length pre + N.to_nat q)%nat by lia.
   rewrite <- skipn_skipn', skipn_app, skipn_all, Nat.sub_diag. reflexivity.
 Qed.
 
